@@ -137,6 +137,8 @@ UNITS["gens"] = {
     "pieces": types(agi="body") + [
         text("spec/spec_wf.rs"),
         fns("src/generators/bulletproof_gens.rs", "impl BulletproofGens<P> {", "BulletproofGens", fns=["g_iter", "h_iter"], subst=IMPL_ITER_SUBST),
+        text("spec/lemmas_clone.rs"),
+        fns("src/generators/bulletproof_gens.rs", "impl Clone for BulletproofGens<P> {", "BulletproofGens", fns=["clone"], impl_filter="implCloneforBulletproofGens<P>", opdesugar=False),
         fns("src/range_parameters.rs", "impl RangeParameters<P> {", "RangeParameters", fns=["gi_base_iter", "hi_base_iter", "precomp"],
             stubs=["bit_length", "max_aggregation_factor"], subst=IMPL_ITER_SUBST),
     ],
@@ -236,6 +238,18 @@ UNITS["pedersen_statics"] = {
     "safety": {"*": ["C11"]},
 }
 
+# src/utils/nullrng.rs
+UNITS["nullrng"] = {
+    "prelude": ["00_header.rs", "94_nullrng.rs"],
+    "contracts": ["nullrng.vc"],
+    "pieces": [
+        fns("src/utils/nullrng.rs", "impl NullRng {", "NullRng", fns=["fill_bytes", "try_fill_bytes"], impl_filter="implRngCoreforNullRng", opdesugar=False,
+            subst=[("rand_core :: Error", "RandError")]),
+        raw("proof fn vx_canary_axioms_nr() ensures false { }\n"),
+    ],
+    "safety": {"*": ["C08"]},
+}
+
 # the forwarding impls of src/ristretto.rs (FixedBytesRepr, Decompressable, FromUniformBytes, Compressable for the dalek types)
 GLUE_SUBST = [("CompressedRistretto :: as_bytes (self )", "self . dalek_as_bytes ()"), ("CompressedRistretto :: decompress (self )", "self . dalek_decompress ()"),
               ("RistrettoPoint :: from_uniform_bytes (bytes )", "RistrettoPoint :: dalek_from_uniform_bytes (bytes )"), ("RistrettoPoint :: compress (self )", "self . dalek_compress ()"),
@@ -288,6 +302,18 @@ def prover_pieces(extra_hoist=()):
         fns("src/range_proof.rs", RP_HEADER, "RangeProof", fns=["prove_with_rng"], mapcollect=True, hoist=["prove_with_rng:@ret"] + list(extra_hoist)),
     ]
 
+
+# the `prove` entry point: prove_with_rng by contract (proved in unit prove)
+UNITS["prove_wrapper"] = {
+    "prelude": PRELUDE_ALL,
+    "contracts": ["ctors.vc", "gens.vc", "prove_safety.vc", "prove_structure.vc", "prove_wrapper.vc"],
+    "pieces": types() + RPT_ITEMS + [
+        text("spec/tproto_trait.rs"), text("spec/sproto_trait.rs"), text("spec/spec_transcript.rs"), text("spec/spec_mask.rs"), text("spec/spec_wf.rs"),
+        text("spec/spec_verify.rs"), text("spec/spec_prove.rs"),
+        fns("src/range_proof.rs", RP_HEADER, "RangeProof", fns=["prove"], stubs=["prove_with_rng"], opdesugar=False),
+    ],
+    "safety": {"*": ["C01", "C06"]},
+}
 
 UNITS["prove"] = {
     "prelude": PRELUDE_ALL,
